@@ -25,6 +25,8 @@ CLAIMED = {
          "total number of segments bounded; n and coordinates symbolic <= 2^40"),
  "C10": ("§4 C10", "Expand(i,-n) after Shift(i,n)/Expand(i,n) is proved to restore the denotation, order, strand and markers of every shape in the bound (single parts come back as exactly that part).",
          "location level; shapes bounded as C02"),
+ "C11": ("§4 C11", "each of 14 library operations is executed on sequences whose residue bytes are symbolic and whose slices have every aliasing shape (len==cap, spare capacity, sub-slice of a larger caller-owned buffer; feature tables with spare slots); a deep snapshot of everything the caller can observe (whole backing buffer, keys, location atoms, qualifier strings) is asserted unchanged after the call and after a second call, and the first result is asserted unchanged by the second call. The engine's slice model implements append's in-place rule, so aliasing writes are visible exactly as at run time.",
+         "sequence lengths 4/2, two host features; quick uses concrete coordinates; data races and reflection-based observers are outside"),
  "C16": ("§4 C16", "fromOriginLength(toOriginLength(n))=n, strict monotonicity and an independently written layout formula are proved for every n in [0,4e18] in one query each; NewOrigin/Bytes layout is executed on symbolic residues for bounded lengths.",
          "layout harness lengths bounded as stated in the evidence"),
  "C17": ("§4 C17", "FastaWriter/wrap.Force/FastaParser/Scanner are executed on records with symbolic descriptions and symbolic residues (printable minus '>') at lengths around the 70-column boundaries, 1-3 records per stream: same count, descriptions and residues; GenBank->FASTA conversion keeps residues and builds the documented description (also for slices).",
